@@ -36,7 +36,7 @@ FAULT_OPS = ("alloc", "clock_tick", "clock_jump", "clock_freeze")
 # (probes "epoch_address_reused" / "ephemeral_id" only fire if the code under test calls id() on temporaries,
 #  which the repaired tree no longer does; they are kept for mutants and not required to be non-zero)
 PROBES = ["refinement_rounds_ge_2", "timeout_fired", "clock_went_backwards",
-          "symmetric_family", "regular_graph_zoo", "edit_keeps_species_and_reaction_counts", "analyser_attribute_rekeyed", "enumeration_suspended_while_other_call_runs", "canon_compared_with_another_interpreter", "more_than_1000_automorphisms", "same_hypergraph_object_reanalysed", "network_edited_between_analyses", "call_relying_on_signature_defaults", "analyser_object_reused", "depth_limited_call", "wl_checked", "twin_compared", "neighbour_compared", "flagged_partial_answer", "slow_clock_default_timeout"]
+          "symmetric_family", "orbits_accessor_called", "regular_graph_zoo", "edit_keeps_species_and_reaction_counts", "analyser_attribute_rekeyed", "enumeration_suspended_while_other_call_runs", "canon_compared_with_another_interpreter", "more_than_1000_automorphisms", "same_hypergraph_object_reanalysed", "network_edited_between_analyses", "call_relying_on_signature_defaults", "analyser_object_reused", "depth_limited_call", "wl_checked", "twin_compared", "neighbour_compared", "flagged_partial_answer", "slow_clock_default_timeout"]
 REAL = ["synkit.CRN.Topo.wl_canon.WLCanonicalizer / wl_canonical (sound checks only: isomorphic to view, colour classes coarsen true orbits, estimate >= true count, twin histograms equal)",
         "synkit.CRN.Topo.canon.CRNCanonicalizer (_init_part/_sig/_refine/_label/_search/_canon, summary/graph/orbits)",
         "synkit.CRN.Topo.automorphism.CRNAutomorphism.summary / has_nontrivial_automorphism / detect_automorphisms",
@@ -304,6 +304,8 @@ def generate(seed: int, tier: str = "quick") -> Dict[str, Any]:
                 ops[-1]["rekey"] = True
             if rng.random() < 0.05:
                 ops[-1]["peer"] = True
+            if rng.random() < 0.15:
+                ops[-1]["accessors"] = True
         else:
             ops.append({"op": "aut", "s": s(), "which": which, "flags": list(flags), "timeout": (tmo if rng.random() < 0.7 else "default"),
                         "max_count": rng.choice([100, 1000, 5000, 3]),
@@ -311,6 +313,8 @@ def generate(seed: int, tier: str = "quick") -> Dict[str, Any]:
                         "bare": rng.random() < 0.4})
             if ops[-1]["api"] == "detect" and rng.random() < 0.3:
                 ops[-1]["max_count"] = None
+            if ops[-1]["api"] == "summary" and rng.random() < 0.3:
+                ops[-1]["also_orbits"] = True
             if ops[-1]["api"] == "iter" and rng.random() < 0.4:
                 # two consumers of one analyser: the lazy enumeration is suspended while another call runs on the same object
                 ops[-1]["timeout"] = None
@@ -642,6 +646,8 @@ def _run(case: Dict[str, Any], sim: Sim, world: World, clock: SimClock) -> None:
             else:
                 wl = WLCanonicalizer(H, **flag_kwargs(op))
             ws = wl.summary()
+            if as_orbit_set(wl.orbits()) != as_orbit_set(ws["orbits"]) or canon_sig(wl.graph(), bip, sto) != canon_sig(ws["canon_graph"], bip, sto):
+                raise Violation(PROP, site, "result_not_repeatable", cond_base + "; WL accessors differ from summary", {})
             Gv = wl.G
             check_view(which, H, Gv)
             T = truth(which, Gv)
@@ -767,6 +773,13 @@ def _run(case: Dict[str, Any], sim: Sim, world: World, clock: SimClock) -> None:
             sim.state(("canon", bip, sto, which, flagged, T["count"] if not T["capped"] else -1, Gv.number_of_nodes(), Gv.number_of_edges()))
             sim.event("canon", {"which": which, "api": op["api"], "flagged": flagged,
                                 "count": (s["automorphism_count"] if s else None), "sig": (canon_sig(s["canon_graph"], bip, sto) if (s and not flagged) else None)})
+            if op.get("accessors") and unlimited and s is not None and not flagged and not T["capped"]:
+                sim.probe("orbits_accessor_called")
+                if as_orbit_set(c.orbits()) != T["orbits"]:
+                    raise Violation(PROP, "CRNCanonicalizer.orbits", "orbits_wrong", cond_base + "; accessor", {})
+                if bool(c.has_nontrivial_automorphism()) != (T["count"] > 1):
+                    raise Violation(PROP, "CRNCanonicalizer.has_nontrivial_automorphism", "automorphism_count_wrong", cond_base + "; accessor",
+                                    {"true_count": T["count"]})
             if op.get("peer") and unlimited and s is not None and not flagged and not T["capped"] and T["count"] <= 200:
                 # the canonical form is what gets stored and compared later - by another process
                 ans = peer_canon(nets[which], [bip, sto, iid])
@@ -864,6 +877,14 @@ def _run(case: Dict[str, Any], sim: Sim, world: World, clock: SimClock) -> None:
                 else:
                     res = a.summary(max_count=mc, timeout_sec=tmo)
                     eff_tmo = tmo
+                if op.get("also_orbits") and tmo is None:
+                    # the convenience accessor reports the orbits of the same enumeration
+                    orb_only = a.orbits(max_count=mc, timeout_sec=None)
+                    sim.probe("orbits_accessor_called")
+                    if not res["stopped_early"] and as_orbit_set(orb_only) != as_orbit_set(res["orbits"]):
+                        raise Violation(PROP, "CRNAutomorphism.orbits", "orbits_wrong", cond_base + "; accessor differs from summary",
+                                        {"accessor": sorted(sorted(map(str, o)) for o in orb_only),
+                                         "summary": sorted(sorted(map(str, o)) for o in res["orbits"])})
             elif api == "detect":
                 if tmo == "default":
                     res = detect_automorphisms(H, max_count=mc_arg, **flag_kwargs(op))
